@@ -90,11 +90,19 @@ def rule_titles(rep: Report, rid="C19.escape", rid_col="C19.col", rid_roles="C19
                 return [t]
             got_lists += parts(kws)
             g = lambda i: ("call", ".group", (mt, const(i)), ())
-            rep.eq(rid_col, f"match_{kind}: keyword = group 2 (as listed), title = group 3 stripped", [fmt(g(2), I)[-40:], fmt(("call", ".strip", (g(3),), ()), I)[-48:]],
-                   [fmt(a.get("keyword"), I)[-40:], fmt(a.get("text"), I)[-48:] if a.get("text") else None], **kw)
+            okkt = a.get("keyword") == g(2) and a.get("text") == ("call", ".strip", (g(3),), ())
+            short = lambda t: (fmt(t, I)[:24] + " ... " + fmt(t, I)[-28:]) if t is not None else None
+            rep.ob(rid_col, f"match_{kind}: keyword = group 2 (as listed), title = group 3 stripped on both sides", okkt,
+                   expected=".group(m, 2), .strip(.group(m, 3))", found=[short(a.get("keyword")), short(a.get("text"))], **kw)
             want_ind = ("binop", "Add", ("attr", line, "indent"), ("call", "len", (g(1),), ()))
             rep.ob(rid_col, f"match_{kind}: column = line indent + length of the prefix (group 1) + 1", a.get("indent") is not None and lin_eq(a["indent"], want_ind), **kw,
                    expected="indent + len(match.group(1))", found=fmt(a.get("indent"), I)[-120:] if a.get("indent") else "default")
+        # the verdict depends on the line alone: no matcher state decides whether a well-formed line is recognised
+        state_atoms = [t for t in nf.subterms(m.rv) if t[0] == "attr" and t[1] == m.selft and t[2] != "dialect"]
+        searches = [t for t in nf.subterms(m.rv) if t[0] == "call" and t[1] == "re.search"]
+        rep.ob(rid_roles, f"Markdown match_{kind}: whether the line is recognised depends only on the line and the dialect (not on earlier lines)",
+               not state_atoms and bool(searches), **mr._kw(m), expected="result = the keyword search matched",
+               found={"state read": sorted({t[2] for t in state_atoms}), "result": fmt(m.rv, I)[:160]})
         want_lists = [("attr", dialect, x) for x in lists]
         rep.eq(rid_roles, f"Markdown match_{kind} tries exactly the keyword lists of its role, in listed order", [fmt(x, I) for x in want_lists],
                [fmt(x, I) if x else None for x in got_lists], **mr._kw(m))
